@@ -51,37 +51,37 @@ theorem argsOK (pr : Prec) (hp : PrecFacts pr) (es : List Expr) (h1 : es.all arg
     rw [parsedEs, Bool.and_eq_true] at h2
     exact ArgsOK.cons pr e e' es h1.1 (allOK pr hp e h2.1) (argsOK pr hp (e' :: es) h1.2 h2.2)
 termination_by sizeOf es
-theorem selOK (pr : Prec) (hp : PrecFacts pr) (s : Sel) (h : parsedSel s = true) : SelOK pr s :=
+theorem selOK (pr : Prec) (hp : PrecFacts pr) (s : Sel) (h : parsedSel s = true) : PSelOK pr s :=
   match s, h with
   | .filter e, h => by
     simp only [parsedSel] at h
-    exact SelOK.filter pr hp e (allOK pr hp e h)
-  | .name _, _ => SelOK.other pr _ (fun e h => by cases h)
-  | .index _, _ => SelOK.other pr _ (fun e h => by cases h)
-  | .slice _ _ _, _ => SelOK.other pr _ (fun e h => by cases h)
-  | .wild, _ => SelOK.other pr _ (fun e h => by cases h)
-  | .keys, _ => SelOK.other pr _ (fun e h => by cases h)
+    exact PSelOK.filter pr hp e (allOK pr hp e h)
+  | .name _, _ => PSelOK.other pr _ (fun e h => by cases h)
+  | .index _, _ => PSelOK.other pr _ (fun e h => by cases h)
+  | .slice _ _ _, _ => PSelOK.other pr _ (fun e h => by cases h)
+  | .wild, _ => PSelOK.other pr _ (fun e h => by cases h)
+  | .keys, _ => PSelOK.other pr _ (fun e h => by cases h)
 termination_by sizeOf s
 theorem selsOK (pr : Prec) (hp : PrecFacts pr) (ss : List Sel) (hne : ss.isEmpty = false)
-    (h : parsedSels ss = true) : SelsOK pr ss :=
+    (h : parsedSels ss = true) : PSelsOK pr ss :=
   match ss, hne, h with
   | [], hne, _ => by simp at hne
   | [s], _, h => by
     simp only [parsedSels, Bool.and_true] at h
-    exact SelsOK.single pr s (selOK pr hp s h)
+    exact PSelsOK.single pr s (selOK pr hp s h)
   | s :: s' :: ss, _, h => by
     rw [parsedSels, Bool.and_eq_true] at h
-    exact SelsOK.cons pr s s' ss (selOK pr hp s h.1) (selsOK pr hp (s' :: ss) rfl h.2)
+    exact PSelsOK.cons pr s s' ss (selOK pr hp s h.1) (selsOK pr hp (s' :: ss) rfl h.2)
 termination_by sizeOf ss
-theorem segsOK (pr : Prec) (hp : PrecFacts pr) (q : List Seg) (h : parsedSegs q = true) : SegsOK pr q :=
+theorem segsOK (pr : Prec) (hp : PrecFacts pr) (q : List Seg) (h : parsedSegs q = true) : PSegsOK pr q :=
   match q, h with
-  | [], _ => SegsOK.nil pr
+  | [], _ => PSegsOK.nil pr
   | .desc :: q, h => by
     simp only [parsedSegs] at h
-    exact SegsOK.desc pr q (segsOK pr hp q h)
+    exact PSegsOK.desc pr q (segsOK pr hp q h)
   | .child sels :: q, h => by
     simp only [parsedSegs, Bool.and_eq_true, Bool.not_eq_true'] at h
-    exact SegsOK.child pr sels q (selsOK pr hp sels h.1.1 h.1.2) (segsOK pr hp q h.2)
+    exact PSegsOK.child pr sels q (selsOK pr hp sels h.1.1 h.1.2) (segsOK pr hp q h.2)
 termination_by sizeOf q
 end
 
